@@ -58,6 +58,29 @@ impl Tag for EFIMemoryMapTag {
 //@end
 }
 
+// ---- EFIBootServicesNotExitedTag (sized, 8 bytes): needed for the EFI memory map withholding rule ----
+//@extract multiboot2/src/efi.rs :: struct EFIBootServicesNotExitedTag
+//@end
+global layout EFIBootServicesNotExitedTag is size == 8, align == 8;
+impl Pointee for EFIBootServicesNotExitedTag {
+    type Metadata = ();   // sized type
+}
+impl MaybeDynSized for EFIBootServicesNotExitedTag {
+    open spec fn layout_size(meta: ()) -> nat { 8 }
+    open spec fn dst_len_ok(header: &TagHeader) -> bool { true }
+    open spec fn dst_len_spec(header: &TagHeader) -> () { () }
+//@extractall multiboot2/src/efi.rs :: impl MaybeDynSized for EFIBootServicesNotExitedTag
+//@  fn *: novis
+//@  fn dst_len: novis
+//@  fn dst_len: sigrewrite /\(_: &TagHeader\)/ => /(_header: &TagHeader)/
+//@end
+}
+impl Tag for EFIBootServicesNotExitedTag {
+//@extractall multiboot2/src/efi.rs :: impl Tag for EFIBootServicesNotExitedTag
+//@  const ID: novis
+//@end
+}
+
 impl<'a> BootInformation<'a> {
 //@extract multiboot2/src/boot_information.rs :: impl<'a> BootInformation<'a> :: fn command_line_tag
 //@  ret r
@@ -101,6 +124,28 @@ impl<'a> BootInformation<'a> {
 //@    ensures mb_getter_post::<NetworkTag>(self, 16, r),   // specification: type = 16
 //@end
 
+
+//@extract multiboot2/src/boot_information.rs :: impl<'a> BootInformation<'a> :: fn efi_bs_not_exited_tag
+//@  ret r
+//@  spec:
+//@    requires self.wf(), panics_allowed(),
+//@    ensures mb_getter_post::<EFIBootServicesNotExitedTag>(self, 18, r),   // specification: type = 18
+//@end
+
+//@extract multiboot2/src/boot_information.rs :: impl<'a> BootInformation<'a> :: fn efi_memory_map_tag
+//@  ret r
+//@  rules Rlog
+//@  closure 0: || -> (c: Option<&EFIMemoryMapTag>) requires self.wf(), panics_allowed() ensures mb_getter_post::<EFIMemoryMapTag>(self, 17, c)
+//@  closure 1: |_tag: &EFIBootServicesNotExitedTag| -> (c: Option<&EFIMemoryMapTag>) ensures c is None
+//@  spec:
+//@    requires self.wf(), panics_allowed(),
+//@    ensures
+//@        // C04: "The EFI memory map is withheld while a boot-services-not-exited tag is present":
+//@        // with x = the first tag of type 18 (if any): present => nothing; absent => the first tag of type 17
+//@        exists|x: Option<&EFIBootServicesNotExitedTag>| #[trigger] mb_getter_post::<EFIBootServicesNotExitedTag>(self, 18, x)
+//@            && (x is Some ==> r is None)
+//@            && (x is None ==> mb_getter_post::<EFIMemoryMapTag>(self, 17, r)),
+//@end
 
 //@extract multiboot2/src/boot_information.rs :: impl<'a> BootInformation<'a> :: fn module_tags
 //@  ret r
